@@ -34,3 +34,5 @@ Definition run_expand (args : list value) : value :=
 
 Definition entries : list (string * (list value -> value)) :=
   [("roles.expand", run_expand)].
+
+Definition run_line : string -> string := run_with entries.
